@@ -652,7 +652,8 @@ def dec3_digest(b0):
 def main():
     ck = Check('C11')
     ck.trusted = ['Coq 8.16.1 kernel (vm_compute only in the non-vacuity example; no native_compute)',
-                  'translate/kspec_c11.py (fail-closed translator of the __len__ methods to Gallina)',
+                  'translate/kspec_c11.py (fail-closed translators: __len__ methods; codec kernels cut out of pdu.py and handed to py2coq)',
+                  'translate/py2coq.py; translate/kspec_c10.py (MIUX reserved-bit test and mask kernels, cited from Gen/CollectK.v)',
                   'extraction: ExtrOcamlBasic only; extract/c11_run.ml driver (PDU text syntax parser/printer); OCaml 4.13.1',
                   'correspondence harness harness/prop/c11.py (field dump of the Python PDU objects, reference reader)']
     ck.assumptions = ['__len__ bridge: Connect/ConnectionComplete .miu and .rw are ints (never None), as produced by decode and by every constructor call in nfcpy',
@@ -662,7 +663,7 @@ def main():
                       'are outside the model (a valid aggregate does not contain aggregates)',
                       'field-wise equality after re-encoding identifies an empty service name / ECPK / RN with an absent one '
                       '(neither is encoded); Python\'s own == (equality of encodings) holds without this identification']
-    ck.coq(gen=['PduLen'], targets=TARGETS, props='C11')
+    ck.coq(gen=['PduLen', 'PduK', 'CollectK'], targets=TARGETS, props='C11')
     mr = ck.model()
     if mr is None:
         ck.finish()
